@@ -656,6 +656,13 @@ func ruleC15ScanFilter(c *Ctx) {
 				if !ok {
 					continue
 				}
+				// the test kept as a predicate in a field of the scanner ("skip this row?"): answered "no" only
+				// where one of the three holds, for every predicate the field is ever given
+				if !f.Pol && !call.Call.IsInvoke() && call.Call.StaticCallee() == nil {
+					if fld, _ := loadedField(call.Call.Value); fld != nil && skipPredicateField(c, fld) {
+						return true
+					}
+				}
 				switch {
 				case invokeNamed(call, "IsChildStore") && !f.Pol:
 					return true
@@ -2430,3 +2437,149 @@ func (v *cellVal) Type() types.Type              { return v.t }
 func (v *cellVal) Parent() *ssa.Function         { return nil }
 func (v *cellVal) Referrers() *[]ssa.Instruction { return nil }
 func (v *cellVal) Pos() token.Pos                { return token.NoPos }
+
+// skipPredicateField: every function value stored into the field is a "skip this row" predicate that answers
+// false only when the store is not a child store, or the row has child data, or the store is extended.
+func skipPredicateField(c *Ctx, fld *types.Var) bool {
+	p := c.P
+	n := 0
+	for _, fn := range c.prodFuncs("boltz") {
+		for _, b := range fn.Blocks {
+			for _, in := range b.Instrs {
+				st, isSt := in.(*ssa.Store)
+				if !isSt {
+					continue
+				}
+				if f, _ := fieldOfAddr(st.Addr); !sameVar(f, fld) {
+					continue
+				}
+				n++
+				preds := closuresOf(st.Val, 0)
+				if len(preds) == 0 {
+					return false
+				}
+				for _, cl := range preds {
+					if !skipPredicateOK(cl) {
+						return false
+					}
+					c.Analysed(FnName(cl))
+				}
+			}
+		}
+	}
+	_ = p
+	return n > 0
+}
+
+// closuresOf: the functions a function value can be: a closure made here, a named function, or what a factory
+// of the module returns on each of its paths.
+func closuresOf(v ssa.Value, depth int) []*ssa.Function {
+	if depth > 3 {
+		return nil
+	}
+	switch x := v.(type) {
+	case *ssa.ChangeType:
+		return closuresOf(x.X, depth+1)
+	case *ssa.MakeClosure:
+		if f, ok := x.Fn.(*ssa.Function); ok {
+			return []*ssa.Function{f}
+		}
+	case *ssa.Function:
+		if x.Blocks != nil {
+			return []*ssa.Function{x}
+		}
+	case *ssa.Call:
+		sc := x.Call.StaticCallee()
+		if sc == nil || sc.Blocks == nil || !inModule(sc) {
+			return nil
+		}
+		var out []*ssa.Function
+		for _, r := range returnsOf(sc) {
+			if len(r.Results) != 1 {
+				return nil
+			}
+			sub := closuresOf(r.Results[0], depth+1)
+			if len(sub) == 0 {
+				return nil
+			}
+			out = append(out, sub...)
+		}
+		return out
+	}
+	return nil
+}
+
+// skipPredicateOK: wherever the predicate can answer false, one of the three facts holds.
+func skipPredicateOK(fn *ssa.Function) bool {
+	if fn.Signature.Results().Len() != 1 {
+		return false
+	}
+	fi := factsOf(fn)
+	established := func(from, to *ssa.BasicBlock) bool {
+		for f := range fi.edgeFacts(from, to) {
+			call, ok := f.V.(*ssa.Call)
+			if f.Kind != "true" || !ok {
+				continue
+			}
+			switch {
+			case invokeNamed(call, "IsChildStore") && !f.Pol, invokeNamed(call, "IsEntityPresent") && f.Pol, invokeNamed(call, "IsExtended") && f.Pol:
+				return true
+			}
+		}
+		return false
+	}
+	// falseMeansOK: the value being false is itself one of the three facts
+	var falseMeansOK func(v ssa.Value) bool
+	falseMeansOK = func(v ssa.Value) bool {
+		switch x := v.(type) {
+		case *ssa.Call:
+			return invokeNamed(x, "IsChildStore")
+		case *ssa.UnOp:
+			if x.Op == token.NOT {
+				if k, isCall := x.X.(*ssa.Call); isCall {
+					return invokeNamed(k, "IsEntityPresent") || invokeNamed(k, "IsExtended")
+				}
+			}
+		}
+		return false
+	}
+	for _, r := range returnsOf(fn) {
+		type leaf struct {
+			v    ssa.Value
+			from *ssa.BasicBlock
+			to   *ssa.BasicBlock
+		}
+		var leaves []leaf
+		if phi, isPhi := r.Results[0].(*ssa.Phi); isPhi {
+			for i, e := range phi.Edges {
+				leaves = append(leaves, leaf{e, phi.Block().Preds[i], phi.Block()})
+			}
+		} else {
+			leaves = append(leaves, leaf{r.Results[0], nil, r.Block()})
+		}
+		for _, lf := range leaves {
+			if k, isK := lf.v.(*ssa.Const); isK && k.Value != nil && k.Value.Kind() == constant.Bool {
+				if constant.BoolVal(k.Value) {
+					continue
+				}
+			} else if falseMeansOK(lf.v) {
+				continue
+			}
+			// may be false here for another reason: every path into this edge must have established a fact
+			target := lf.to
+			if lf.from != nil {
+				if established(lf.from, lf.to) {
+					continue
+				}
+				target = lf.from
+			}
+			ps := &pathSearch{fn: fn, fi: fi, start: fn.Blocks[0], skipEdge: established}
+			ps.target = func(in ssa.Instruction) bool { return in.Block() == target }
+			reached := ps.run()
+			if reached {
+				return false
+			}
+		}
+	}
+	return true
+}
